@@ -69,6 +69,14 @@ let show_out = function
   | OutPread (None, _) -> "pread=none"
   | OutPread (Some sz, b) -> "pread=" ^ sn sz ^ ":" ^ hex_of_bytes b
 
+(* --probed-ok <left_shift> <pl_min_excl> <pl_max>: evaluate the theorems' side condition (extracted
+   probed_ok) on the constants the harness probed from the compiled implementation *)
+let () =
+  if Array.length Sys.argv >= 5 && Sys.argv.(1) = "--probed-ok" then begin
+    let p = { pr_left_shift = n_of_string Sys.argv.(2); pr_pl_min_excl = n_of_string Sys.argv.(3);
+              pr_pl_max = n_of_string Sys.argv.(4) } in
+    print_endline (if probed_ok p then "probed_ok=1" else "probed_ok=0"); exit 0 end
+
 let () = each_line (fun line ->
   match (match split_ws line with "T" :: r -> r | r -> r) with
   | cs :: lay :: rest ->
